@@ -785,11 +785,17 @@ func nonNilSlice(v ssa.Value, d int) bool {
 			if _, ok := prm.Type().Underlying().(*types.Slice); !ok {
 				continue
 			}
+			visiting := map[ssa.Value]bool{}
 			var from func(r ssa.Value, dd int) bool
 			from = func(r ssa.Value, dd int) bool {
-				if dd > 6 {
+				if dd > 12 {
 					return false
 				}
+				if visiting[r] {
+					return true // a cycle through loop variables and recursive calls adds nothing new
+				}
+				visiting[r] = true
+				defer delete(visiting, r)
 				switch y := stripConv(r).(type) {
 				case *ssa.Parameter:
 					return y == prm
